@@ -84,7 +84,11 @@ Definition coin_get (l : list (bytes * Z)) (d : bytes) : Z :=
 (* ---------- messages ---------- *)
 Inductive smsg :=
 | MCreateTenant (sender : Z) (denom : bytes) (period : Z)
-| MCreateTenantMC (sender : Z) (denom : bytes) (period : Z)
+(* [contract] = "": the module deploys the token contract itself (method 1).  Otherwise the tenant names any address
+   as its token contract, and what a call to that address does is the EVM's business, not the module's: the
+   history says which ([foreign] = 3: every call to it fails, 4: the call succeeds and moves nothing the
+   module can see, e.g. an address without code). *)
+| MCreateTenantMC (sender : Z) (denom : bytes) (period : Z) (contract : bytes) (foreign : Z)
 | MAddAdmin (sender tid admin : Z)
 | MRemoveAdmin (sender tid admin : Z)
 | MUpdatePeriod (sender tid period : Z)
@@ -247,7 +251,8 @@ Definition validate_basic (m : smsg) : bool :=
       && valid_token_hex tokhex
   | MCancel _ _ _ => true
   | MCreateTenant _ denom period => valid_denom denom && valid_period_u64 period
-  | MCreateTenantMC _ denom period => valid_denom denom && valid_period_u64 period
+  | MCreateTenantMC _ denom period contract _ =>
+      valid_denom denom && valid_period_u64 period && (bytes_eqb contract [] || is_hex_address contract)
   | MAddAdmin _ _ _ => true
   | MRemoveAdmin _ _ _ => true
   | MUpdatePeriod _ _ period => valid_period_u64 period
@@ -292,9 +297,10 @@ Definition handle (s : sstate) (h : Z) (m : smsg) : outcome (sstate * list gev) 
   | MCreateTenant sender denom period =>
       let tid := wrap64 (largest_tenant_id (s_tenants s) + 1) in
            Ok (set_tenants s (s_tenants s ++ [mkTenant tid [sender] denom period 0]), [])
-  | MCreateTenantMC sender denom period =>
+  | MCreateTenantMC sender denom period contract foreign =>
       let tid := wrap64 (largest_tenant_id (s_tenants s) + 1) in
-           Ok (set_tenants s (s_tenants s ++ [mkTenant tid [sender] denom period 1]), [])
+      let method := if bytes_eqb contract [] then 1 else if foreign =? 3 then 3 else 4 in
+           Ok (set_tenants s (s_tenants s ++ [mkTenant tid [sender] denom period method]), [])
   | MAddAdmin sender tid admin =>
       if negb (is_admin s tid sender) then Rejected
       else match find_tenant (s_tenants s) tid with
@@ -374,7 +380,11 @@ Definition pay_one (method tid : Z) (denom : bytes) (l : ledger) (fault : bool) 
   else if method =? 1 then
     if two256 <=? bal_get l sbt_supply (sbt_asset tid) + amt then None
     else Some (bal_add (bal_add l addr (sbt_asset tid) amt) sbt_supply (sbt_asset tid) amt)
+  else if method =? 4 then Some l
   else None.
+
+(* the payout methods the module knows how to serve; any other value stops the tenant's queue before a back-end call *)
+Definition payable_method (m : Z) : bool := (m =? 0) || (m =? 1) || (m =? 3) || (m =? 4).
 
 (* pays all recipients of one record on a branch; returns the remaining fault plan as well *)
 Fixpoint pay_all (method tid : Z) (denom : bytes) (l : ledger) (faults : list bool) (outs : list (Z * Z))
@@ -411,7 +421,7 @@ Fixpoint settle_loop (t : tenant) (h : Z) (recs : list (Z * utxr)) (s : sstate) 
             let '(s3, f3, g3) := settle_loop t h recs' s2 faults in
             (s3, f3, GDropped (t_id t) uid :: g3)
         | _ :: _ =>
-            if negb ((t_method t =? 0) || (t_method t =? 1)) then (s, faults, []) else
+            if negb (payable_method (t_method t)) then (s, faults, []) else
             let outs := payout_amounts u in
             match pay_all (t_method t) (t_id t) (u_denom u) (s_bal s) faults outs with
             | (None, faults') => (s, faults', [])
